@@ -14,13 +14,14 @@ inductive VClass where
   | codeSlot      -- intended code slot (decorators, methods: user-supplied code, out of scope)
   | templateData  -- value of --extra-template-data (user-supplied, out of scope)
   | rawInput      -- schema text copied without any escaping
+  | docText       -- schema text passed through the `escape_docstring` filter
   | includeT      -- `{% include %}` of another template
   | loopHeader    -- `{% for … %}` header: produces no output
   | commentLine   -- one element of `field.docstring.splitlines()`: raw input without line terminators
   | unknown
   deriving DecidableEq, Repr
 
-def classify (expr : String) : VClass :=
+def classifyExpr (expr : String) : VClass :=
   if expr ∈ ["class_name", "field.name", "field_name", "key", "fields[0].name"] then .identifier
   else if expr ∈ ["field.type_hint", "field.annotated", "py_type", "get_type_hint(fields)",
                    "_fields[0].type_hint"] then .typeExpr
@@ -35,6 +36,12 @@ def classify (expr : String) : VClass :=
   else if expr = "line" then .commentLine
   else .unknown
 
+/-- classification of a site: expression plus the filters applied to it -/
+def classify (expr : String) (filters : List String := []) : VClass :=
+  match classifyExpr expr with
+  | .rawInput => if filters.contains "escape_docstring" then .docText else .rawInput
+  | c => c
+
 /-- where a value of each class may stand. `rawInput` is allowed nowhere: every such site is
 a finding and must be on the reviewed list. -/
 def allowed : VClass → String → Bool
@@ -48,12 +55,19 @@ def allowed : VClass → String → Bool
   | .includeT, st => st == "code"
   | .loopHeader, _ => true
   | .commentLine, st => st == "comment"
+  | .docText, st => st == "tdq"
   | .rawInput, _ => false
   | .unknown, _ => false
 
-/-- reviewed list of (expression, lexical state) pairs at which raw input is interpolated:
-class/field docstrings and the `#` comment of `Union.jinja2` (known finding D4). -/
-def reviewedRaw : List (String × String) :=
-  [("description", "tdq"), ("field.docstring", "tdq"), ("description", "comment")]
+/-- loop headers that may feed a `{{ line }}` comment site: the lines of a description, taken with
+`str.splitlines()` (which removes every line terminator) -/
+def reviewedLineLoops : List String :=
+  ["for:lineinfield.docstring.splitlines()", "for:lineindescription.splitlines()"]
+
+/-- the `escape_docstring` function as modelled by `Model.Escape.escDoc` -/
+def docstringReplacesModelled : List (List Char × List Char) :=
+  [(['\\'], ['\\', '\\']),
+   (['"', '"', '"'], ['"', '"', '\\', '"']),
+   ([Char.ofNat 0], ['\\', 'x', '0', '0'])]
 
 end Dcg.Model.Sites
